@@ -234,6 +234,8 @@ class Tr:
 
     def zexp(self, e):
         e0 = e
+        if isinstance(e, ast.Name) and self.scales_local is not None and e.id == self.scales_local:
+            return "ZParamScales"
         e = self.resolve(e)
         v = int_const(e)
         if v is not None:
